@@ -99,7 +99,10 @@ def verify_root(trusted_current_root_metadata, untrusted_new_root_metadata):
     trusted_root_version = trusted_current_root_metadata["signed"]["version"]
     untrusted_root_version = untrusted_new_root_metadata["signed"]["version"]
 
-    if trusted_root_version + 1 != untrusted_root_version:
+    # Versions are integer-valued (checkformat_natural_int) but may be floats;
+    # do the successor arithmetic on an int, since float + 1 is absorbed from
+    # 2**53 on (v + 1 == v) and the same version would pass as its successor.
+    if int(trusted_root_version) + 1 != untrusted_root_version:
         # TODO ✅: Create a suitable error class for this.
         raise MetadataVerificationError(
             "Root chaining failure: we currently trust a version of root "
